@@ -77,14 +77,17 @@ Definition generate_keys (s : tcore) (v : tls_version) (ciphersuite : bytes) (se
     | _ =>
       (* keys stay unassigned when the first matching line has a label the version's branch does not handle *)
       match derive_session_keys C v cs secret_list (ts_client_random s) server_random with
-      | Exn UnboundLocal => Ok (set_can s false)
-      | Exn e => Exn e
+      (* keys stay None when the first matching line has a label the version's branch does not handle; any exception of the derivation
+         or of Decryptor.__init__ is caught where generate_keys is called: the session cannot be decrypted, nothing else changes *)
+      | Exn _ => Ok (set_can s false)
       | Ok keys =>
         let block_size := match algo_of cs with
                           | Some AES | Some AESCCM | Some AESGCM | Some Camellia => 128
                           | Some TripleDES | Some IDEA => 64 | _ => 0 end in
-        do d <- new_decryptor (algo_of cs) keys v (digest_size (s_mac cs)) (s_tag cs) block_size (ts_extensions s) (ts_compression s);
-        Ok (set_dec s (Some d))
+        match new_decryptor (algo_of cs) keys v (digest_size (s_mac cs)) (s_tag cs) block_size (ts_extensions s) (ts_compression s) with
+        | Ok d => Ok (set_dec s (Some d))
+        | Exn _ => Ok (set_can s false)
+        end
       end
     end
   end.
